@@ -25,7 +25,7 @@ from . import common, meshes
 from .common import INT_FILL, enc_floats, enc_ints
 
 KINDS = ["node", "edge", "face"]
-RADII = [1.0, 0.5, 2.0, 6371229.0]
+RADII = [1.0, 0.5, 2.0, 6371229.0, 1.000003]  # the last: "nearly unit" (inside np.isclose's default rtol)
 OPNAME = ["node_lonlat", "edge_lonlat", "face_lonlat", "node_xyz", "edge_xyz", "face_xyz", "normalize"]
 EPS = 1e-12
 SNAP = 1e-8
@@ -135,7 +135,7 @@ def make_source(rng, faces, node_truth, tag, combo, node_ll=None):
         s.ll["node"] = (lon, np.asarray(n_ll[1], float).copy())
     if nprov in ("xyz", "both"):
         s.xyz["node"] = rn * s.truth["node"]
-    s.prov["node"] = nprov + (f"(r={rn:g})" if nprov != "ll" else "")
+    s.prov["node"] = nprov + (f"(r={rn:.8g})" if nprov != "ll" else "")
     s.conv["node"] = "0..360" if (cn and nprov != "xyz") else "±180"
     # centres
     ed = edges_of(s.faces)
@@ -156,7 +156,7 @@ def make_source(rng, faces, node_truth, tag, combo, node_ll=None):
             s.ll[kind] = (conv360(lon) if conv else lon, lat)
         if prov in ("xyz", "both"):
             s.xyz[kind] = r * t
-        s.prov[kind] = prov + (f"(r={r:g})" if prov != "ll" else "")
+        s.prov[kind] = prov + (f"(r={r:.8g})" if prov != "ll" else "")
         s.conv[kind] = "0..360" if (conv and prov != "xyz") else "±180"
     return s
 
@@ -563,6 +563,49 @@ def vary_numbering(rng, faces, xyz, ll=None):
     return faces, xyz, ll, tags
 
 
+def fine_patch(rng, d=None, where=None):
+    """Element SIZE as a generator dimension: an nx × ny lattice (some quads split into triangles)
+    whose spacing d is log-uniform in [1e-6, 1] rad — from elements far below the 1e-5 relative
+    tolerances used inside the library up to continental size — placed at a random position, at
+    high latitude, across the antimeridian or across the prime meridian.
+    Returns (name, lon, lat, faces)."""
+    d = d if d is not None else math.exp(rng.uniform(math.log(1e-6), math.log(1.0)))
+    where = where or rng.choice(["random", "high-lat", "antimeridian", "prime-meridian"])
+    nx, ny = rng.randint(1, 3), rng.randint(1, 3)
+    if d * max(nx, ny) > 1.2:
+        nx = ny = 1
+    ddeg = math.degrees(d)
+    maxlat = 85.0 - ny * ddeg if d < 0.05 else 45.0 - ny * ddeg / 2
+    maxlat = max(maxlat, 5.0)
+    if where == "high-lat" and d < 0.05:
+        lat0 = rng.choice([-1, 1]) * rng.uniform(70.0, 84.0)
+        lat0 = lat0 if lat0 > 0 else lat0 - ny * ddeg
+        lat0 = min(lat0, 85.0 - ny * ddeg)
+    else:
+        lat0 = rng.uniform(-maxlat, maxlat - ny * ddeg) if maxlat - ny * ddeg > -maxlat else -ny * ddeg / 2
+    dlon = ddeg / max(math.cos(math.radians(abs(lat0) + ny * ddeg)), 0.05)
+    dlon = min(dlon, 100.0 / nx)
+    if where == "antimeridian":
+        lon0 = 180.0 - dlon * rng.uniform(0.2, nx - 0.2)
+    elif where == "prime-meridian":
+        lon0 = -dlon * rng.uniform(0.2, nx - 0.2)
+    else:
+        lon0 = rng.uniform(-175.0, 175.0 - nx * dlon)
+    lon = np.array([lon0 + i * dlon for j in range(ny + 1) for i in range(nx + 1)])
+    lon = (lon + 180.0) % 360.0 - 180.0
+    lat = np.array([lat0 + j * ddeg for j in range(ny + 1) for i in range(nx + 1)])
+    faces = []
+    for j in range(ny):
+        for i in range(nx):
+            a = j * (nx + 1) + i
+            q = [a, a + 1, a + nx + 2, a + nx + 1]
+            if rng.random() < 0.3:
+                faces += [q[:3], [q[0], q[2], q[3]]]
+            else:
+                faces.append(q)
+    return f"fine({ddeg:.3g}deg)@{where}", lon, lat, faces
+
+
 NODE_PROV = ["ll", "xyz", "both"]
 CENTRE_PROV = ["none", "ll", "xyz", "both"]
 
@@ -638,7 +681,8 @@ def run(ctx):
     rng = ctx.rng
     ctx.rule = ("sources = abstract meshes (harness/meshes.zoo + explicit lon/lat lists with poles, ±180, 0, snap-cap nodes, mixed face "
                 "sizes with an unused node numbered last / first) × numbering and coverage (unused nodes first / middle / last, node "
-                "ids kept / descending / shuffled, biggest face first / middle / last, one position under two ids) "
+                "ids kept / descending / shuffled, biggest face first / middle / last, one position under two ids) × element size "
+                "(lattice spacing log-uniform 1e-6..1 rad, fixed 0.01°/0.1°/0.5° at high latitude and across the antimeridian) "
                 "× provenance (node: lon/lat | xyz | both; edge, face: none | lon/lat | xyz | both; radii 1, 0.5, 2, 6371229; "
                 "supplied centres are perturbed off the centroid) × longitude convention per variable (±180 | 0..360) × "
                 "history (a permutation of the six getters, optional normalize_cartesian_coordinates(), two re-reads; "
@@ -705,6 +749,25 @@ def run(ctx):
                 if len({len(f) for f in f2}) > 1:
                     ctx.hit("numbering:mixed-face-sizes")
                 judge(ctx, s, history(rng))
+
+    # 2c. element SIZE: lattices with spacing log-uniform in [1e-6, 1] rad (+ fixed 0.01°, 0.1°, 0.5° at
+    #     high latitude and across the antimeridian), centres derived at least half of the time
+    sized = [fine_patch(rng, math.radians(dd), wh) for dd in (0.01, 0.1, 0.5) for wh in ("high-lat", "antimeridian")]
+    sized += [fine_patch(rng) for _ in range(ctx.n(70, 400))]
+    for name, lon, lat, faces in sized:
+        combo = random_combo(rng)
+        if rng.random() < 0.5:
+            combo = (combo[0], "none", "none", combo[3], combo[4])
+        f2, t2, ll2, tags = vary_numbering(rng, faces, xyz_of(lon, lat), (lon, lat)) if rng.random() < 0.3 else (faces, xyz_of(lon, lat), (lon, lat), [])
+        s = make_source(rng, f2, t2, name + "".join("+" + t for t in tags), combo, node_ll=ll2)
+        if degenerate(s):
+            ctx.hit("skipped-degenerate")
+            continue
+        dd = float(name[5:name.index("deg")])
+        ctx.hit("size:<0.001°" if dd < 1e-3 else "size:0.001°-0.01°" if dd < 1e-2 else "size:0.01°-0.5°" if dd < 0.5
+                else "size:0.5°-5°" if dd < 5 else "size:>5°")
+        ctx.hit("size@" + name.split("@")[1].split("+")[0])
+        judge(ctx, s, history(rng))
 
     # 2b. sample files through the real readers (float64 sources only)
     for fmt, rel in FILES:
